@@ -275,8 +275,41 @@ def hAll : Handler := fun t args observed =>
       [partGlobal m ob, partDegseq m ob t, partVertex m ob vids recs, partPairs m ob pids, partWalks m ob ws, partRemove m ob ps]))
   | _, _ => none
 
+/-- `q_cyclewalks <repr> [ids] <len> [positions]`: compact form of `q_walks` for very long walks.
+The digraph is the directed cycle over `ids`; the walks are the closed walk of `len` vertices around
+it and, per position `p`, the same walk jumping two steps ahead after index `p` (so `(p, p+1)` is its
+only non-arc).  Both sides expand the same rule (`c02.rs: cycle_walk`). -/
+def cycleWalk (ids : Array Nat) (len : Nat) (brk : Option Nat) : List Nat :=
+  (List.range len).map (fun i =>
+    let k := match brk with
+      | some p => if i > p then i + 1 else i
+      | none => i
+    ids[k % ids.size]!)
+
+def hCycleWalks : Handler := fun t args observed =>
+  match args with
+  | [.a repr, idsV, lenV, psV] => do
+    let ids ← parseIds idsV
+    let len ← V.nat? lenV
+    let ps ← parseIds psV
+    if ids.length < 4 || len < 2 then none
+    let m := ids.length
+    let arcs := (List.range m).map (fun i => (ids[i]?.getD 0, ids[(i + 1) % m]?.getD 0))
+    let head := if repr == "am" then V.ofNats ids else V.ofNat m
+    -- weighted tags: weights `i % 7 + 1` as `c02.rs: plain`
+    let arcsV : V :=
+      if repr == "wu" || repr == "wi" then
+        .l (arcs.zipIdx.map (fun p => .l [V.ofNat p.1.1, V.ofNat p.1.2, V.ofNat (p.2 % 7 + 1)]))
+      else V.ofPairs arcs
+    let dv : V := .l [.a repr, head, arcsV]
+    let a := ids.toArray
+    let ws := cycleWalk a len none :: ps.map (fun p => cycleWalk a len (some p))
+    let v ← hWalks t [dv, .l (ws.map V.ofNats)] observed
+    pure { v with tags := v.tags ++ [if len ≥ 4096 then "walk-len>=4096" else "walk-len<4096"] }
+  | _ => none
+
 def handlers : List (String × Handler) :=
-  [("q_global", hGlobal), ("q_degseq", hDegseq), ("q_vertex", hVertex), ("q_pairs", hPairs),
+  [("q_cyclewalks", hCycleWalks), ("q_global", hGlobal), ("q_degseq", hDegseq), ("q_vertex", hVertex), ("q_pairs", hPairs),
    ("q_walks", hWalks), ("q_remove", hRemove), ("q_all", hAll)]
 
 end GraafVerif.Driver.H02
